@@ -22,6 +22,18 @@ def _energy(a):
     return float(np.sum(np.abs(a) ** 2))
 
 
+# decimal exponent of an overall amplitude factor: every clause of the property is homogeneous in the field, so a field of
+# 1e-12 or 1e+30 (heights in metres, photon counts) must behave exactly like an O(1) one
+MAG = st.sampled_from([0, 0, 0, 0, -9, -12, 9, -30, 30, -100, 100])
+
+
+def _mag(case, prec=64):
+    e = case.get('mag', 0)
+    if prec == 32:
+        e = max(-12, min(12, e))      # complex64 holds 1e+-38; energies are squared
+    return 10.0 ** e, ('mag:1' if e == 0 else ('mag:tiny' if e < 0 else 'mag:huge'))
+
+
 def _reset():
     from prysm.fttools import mdft, czt
     mdft.clear()
@@ -35,7 +47,7 @@ def strat_fft(tier):
     return st.fixed_dictionaries({
         'shape': st.one_of(st.tuples(ax, ax).map(list), ax.map(lambda k: [k, k]), ax.map(lambda k: [1, k]), ax.map(lambda k: [k, 1])),
         'Q': st.one_of(st.integers(1, 4), st.sampled_from([1, 2, 1.5, 1.25, 3]), U.nice_float(1, 3).map(lambda v: round(v, 2))),
-        'kind': U.field_kinds, 'via': st.sampled_from(['function', 'wavefront']), 'layout': U.layouts, 'seed': U.seeds})
+        'kind': U.field_kinds, 'via': st.sampled_from(['function', 'wavefront']), 'layout': U.layouts, 'seed': U.seeds, 'mag': MAG})
 
 
 def check_fft(case, ctx):
@@ -43,7 +55,9 @@ def check_fft(case, ctx):
     from prysm import propagation as P
     from prysm.fttools import pad2d
     shape, Q = case['shape'], case['Q']
-    f = U.relayout(U.field(case['seed'], shape, case['kind']), case.get('layout', 'C'))
+    mag, maglabel = _mag(case)
+    f = U.relayout(U.field(case['seed'], shape, case['kind']) * mag, case.get('layout', 'C'))
+    ctx.label(maglabel)
     padded = tuple(math.ceil(s * Q) for s in shape) if Q != 1 else tuple(shape)
     ctx.nt(shape[0] != shape[1] or shape[0] % 2 == 1 or shape[1] % 2 == 1 or case['kind'] != 'real' or Q > 1)
     ctx.label('via:' + case['via'], 'square' if shape[0] == shape[1] else ('row-or-col' if 1 in shape else 'nonsquare'),
@@ -88,7 +102,7 @@ def strat_pairs(tier):
         'shape': st.one_of(st.tuples(ax, ax).map(list), ax.map(lambda k: [k, k])),
         'extra': st.tuples(extra(), extra()).map(list),       # k = n + extra  (per axis)
         'kind': U.field_kinds, 'method': st.sampled_from(['mdft', 'czt']), 'order': st.sampled_from(['fwd-inv', 'inv-fwd']),
-        'prec': st.sampled_from([64, 64, 64, 32]), 'seed': U.seeds})
+        'prec': st.sampled_from([64, 64, 64, 32]), 'seed': U.seeds, 'mag': MAG})
 
 
 def check_pairs(case, ctx):
@@ -98,7 +112,9 @@ def check_pairs(case, ctx):
     shape, extra, method, prec = case['shape'], case['extra'], case['method'], case['prec']
     k = (shape[0] + extra[0], shape[1] + extra[1])
     Q = (k[0] / shape[0], k[1] / shape[1])
-    f = U.field(case['seed'], shape, case['kind']).astype(complex)
+    mag, maglabel = _mag(case, prec)
+    f = U.field(case['seed'], shape, case['kind']).astype(complex) * mag
+    ctx.label(maglabel)
     ctx.nt(shape[0] != shape[1] or shape[0] % 2 == 1 or shape[1] % 2 == 1 or case['kind'] != 'real' or extra != [0, 0])
     ctx.label(method, case['order'], 'prec%d' % prec, 'square' if shape[0] == shape[1] else 'nonsquare',
               'Q=1' if extra == [0, 0] else 'Q>1', 'peraxisQ' if Q[0] != Q[1] else 'isoQ',
@@ -136,7 +152,7 @@ def strat_free(tier):
         'wvl': st.sampled_from([0.5, 0.6328, 1.55, 10.6]), 'dx': st.sampled_from([0.01, 0.05, 0.2, 1.0, 2e-4, 1e-3]),
         'z1': z, 'z2': z, 'Q': st.sampled_from([1, 1, 2]), 'via': st.sampled_from(['function', 'tf', 'wavefront']),
         'kind': U.field_kinds, 'prec': st.sampled_from([64, 64, 64, 32]), 'layout': U.layouts, 'seed': U.seeds,
-        'scalar_type': st.sampled_from(['float', 'float', 'np.float64', '0d-array'])})
+        'scalar_type': st.sampled_from(['float', 'float', 'np.float64', '0d-array']), 'mag': MAG})
 
 
 def check_free(case, ctx):
@@ -147,7 +163,9 @@ def check_free(case, ctx):
         # keep the kernel's largest phase (pi wvl z / (2 dx)^2) in the range double precision resolves to the stated tolerance
         z1, z2 = z1 * (dx / 0.01) ** 2, z2 * (dx / 0.01) ** 2
         ctx.label('sub-wavelength-sampling' if dx < 0.0005 * wvl else 'fine-sampling')
-    f = U.relayout(U.field(case['seed'], shape, case['kind']).astype(complex), case.get('layout', 'C'))
+    mag, maglabel = _mag(case, prec)
+    f = U.relayout(U.field(case['seed'], shape, case['kind']).astype(complex) * mag, case.get('layout', 'C'))
+    ctx.label(maglabel)
     f_before = f.copy()
     # the scalar arguments may be Python floats, numpy scalars or 0-d arrays; the callee must not change the caller's objects
     styp = case.get('scalar_type', 'float')
